@@ -52,7 +52,7 @@ theorem sortLevelZero_wb {P : Params} {c : Cmp α} {s : Sketch α} (h : InvS P c
   unfold sortLevelZero; split
   · rfl
   · rw [levels_eq_cons h]
-    simp only [List.headD_cons, List.tail_cons, Mech.wb, Mech.cnt, sortBy_filter]
+    simp only [sortHead, Mech.wb, Mech.cnt, sortBy_filter]
 
 /-- `get_sorted_view`: the view is sorted, its total weight is n, and the rank numerator of every point is the
 weight of the retained items below it -/
